@@ -42,6 +42,7 @@ type Solver struct {
 	// Alt is a second, non-incremental solver process used when the incremental
 	// one gives up within QuickMs: z3's incremental core is much weaker on hard
 	// bit-vector arithmetic than its one-shot tactic.
+	Died    int
 	Alt     *Solver
 	QuickMs int
 	AltUsed int
@@ -246,7 +247,9 @@ func (s *Solver) readUntilMarker(marker string, limit time.Duration) ([]string, 
 		select {
 		case line, open := <-s.lines:
 			if !open {
-				panic(&SolverError{Msg: "solver died after " + strings.Join(lines, "|")})
+				// the solver process exited (crash or kill): the caller restarts it
+				s.Died++
+				return lines, false
 			}
 			if line == marker || line == "\""+marker+"\"" {
 				return lines, true
@@ -310,8 +313,14 @@ func (s *Solver) Check(extra []*Term, wantModel []*Term) (Result, map[string]uin
 		return Unknown, nil
 	}
 	res := Unknown
+	canceled := false
 	for _, l := range lines {
 		if strings.HasPrefix(l, "(error") {
+			if strings.Contains(l, "cancel") && s.Alt != nil {
+				// the incremental solver hit its short time limit in the middle of a command
+				canceled = true
+				continue
+			}
 			panic(&SolverError{Msg: l})
 		}
 		switch l {
@@ -322,6 +331,14 @@ func (s *Solver) Check(extra []*Term, wantModel []*Term) (Result, map[string]uin
 		case "unknown", "timeout":
 			res = Unknown
 		}
+	}
+	if canceled {
+		res = Unknown
+		s.restart()
+		r, m := s.altCheck(extra, wantModel)
+		s.Time += time.Since(start)
+		s.count(r)
+		return r, m
 	}
 	if res == Unknown && s.Alt != nil {
 		if !s.Fresh {
@@ -386,6 +403,14 @@ func (s *Solver) altCheck(extra []*Term, wantModel []*Term) (Result, map[string]
 	s.AltUsed++
 	q0 := a.Queries
 	r, m := a.Check(extra, wantModel)
+	if r == Unknown {
+		// one retry on a fresh process with twice the time
+		a.restart()
+		old := a.TimeoutMs
+		a.TimeoutMs = 2 * old
+		r, m = a.Check(extra, wantModel)
+		a.TimeoutMs = old
+	}
 	_ = q0
 	// definitions made for extra terms were recorded in the shared history/maps
 	s.history, s.emitted, s.declared = a.history, a.emitted, a.declared
